@@ -1422,6 +1422,10 @@ func c16Parse(ctx *Ctx, s string) {
 		impl = "ok " + cty.VerifDump(v)
 	}
 	ctx.Add("mp.parse", impl, encStr(s))
+	if strings.ContainsAny(s, "eEpP") {
+		ctx.Add("d16.parse", impl, encStr(s)) // d16: exponent spellings (unmodelled by mp.parse)
+		ctx.Tag("parse-exponent:" + strings.SplitN(impl, " ", 2)[0])
+	}
 }
 
 func runC16(ctx *Ctx) {
@@ -1447,6 +1451,9 @@ func runC16(ctx *Ctx) {
 		}
 	}
 	for _, s := range c16ParsePool {
+		c16Parse(ctx, s)
+	}
+	for _, s := range []string{"1.5e-3", "12e+2", "-2.5E2", "1e", "e5", "1e5e", "0e5", "-0e5", "1p-3", ".5e1", "5.e1", "1e400", "1e-400", "123456789e-30", "1e27", "1e28", "1e-27", "1e-28", "1e-248", "1e-249", "3e-300", "7e300", "1.e", ".e1", "1e+", "1e-", "1e1.5", "1_0e1", "1e1_0", "1.25p3", "1p+70", "1P-70", "0.1e1", "9007199254740993e-1", "1e0", "1e-0", "+1e2", "1e0000001", "1e1234567", "Infe1", "0x1p4"} {
 		c16Parse(ctx, s)
 	}
 	nHand := c16HandItems(ctx)
@@ -1579,6 +1586,15 @@ func runC16(ctx *Ctx) {
 		case 1:
 			c16Parse(ctx, fmt.Sprintf("%d.%0*d", r.Intn(200)-100, 1+r.Intn(40), r.Int63()))
 		case 2:
+			if r.Intn(2) == 0 {
+				// d16: a decimal literal with an exponent
+				m := fmt.Sprintf("%d", r.Int63n(1<<uint(1+r.Intn(62))))
+				if r.Intn(2) == 0 {
+					m += fmt.Sprintf(".%0*d", 1+r.Intn(30), r.Int63())
+				}
+				c16Parse(ctx, m+string("eEpP"[r.Intn(4)])+[]string{"", "+", "-"}[r.Intn(3)]+fmt.Sprintf("%d", r.Intn([]int{10, 40, 400, 3000}[r.Intn(4)])))
+				break
+			}
 			var sb strings.Builder
 			for k := r.Intn(6); k >= 0; k-- {
 				sb.WriteByte("0123456789.+-_e"[r.Intn(15)])
